@@ -39,6 +39,10 @@ Definition atan2 (y x : R) : R :=
 Definition Rfloor (x : R) : R := IZR (Int_part x).
 Definition rmod (x m : R) : R := x - m * Rfloor (x / m).
 
+(* C fmod: the remainder with the sign of the dividend (truncated quotient) *)
+Definition Rtrunc (x : R) : R := if Rle_dec 0 x then Rfloor x else - Rfloor (- x).
+Definition Rfmod (x m : R) : R := x - m * Rtrunc (x / m).
+
 Lemma sqrt2_sq : sqrt 2 * sqrt 2 = 2.
 Proof. apply sqrt_sqrt; lra. Qed.
 Lemma sqrt2_pos : 0 < sqrt 2.
